@@ -196,7 +196,7 @@ def gen(seed, index, tier):
             # come from what another worker is doing with the same or the previous selector)
             rq["burst"] = rng.choice([2, 2, 3])
         reqs.append(rq)
-    pre = rng.choice([0.0, 0.0, 0.05, 0.2, 0.2])
+    pre = rng.choice([0.0, 0.0, 0.05, 0.2, 0.5])
     if pre:
         # runs with line-level pre-emption: shorter, with more bursts, so that there is something to interleave.
         # Only requests that try to climb out come in bursts: their answer is not-found whatever the schedule,
